@@ -8,7 +8,7 @@
 (***************************************************************************)
 EXTENDS Backend, TLC, Json
 
-CONSTANTS Pairs, Mode, MaxDeviations      \* Mode: "rows" (the matrix) or "directives" (Backend!DirectiveInstances)
+CONSTANTS Pairs, Mode, MaxDeviations      \* Mode: "rows" (the matrix), "directives" (Backend!DirectiveInstances) or "metadata" (Backend!MetadataTextCases)
 
 Factors == [int |-> {"small", "zero", "minus1", "i64max", "i64min", "u64max", "two64", "minus_two64", "i128max", "i128min", "two32"},
             bytes |-> {"len1", "len0", "len27", "len28", "len29", "len31", "len32", "len33", "len64"},
@@ -30,7 +30,8 @@ RowInit ==
         \/ \E f \in FNames : \E v \in Factors[f] : row = [Default EXCEPT ![f] = v]
         \/ /\ Pairs
            /\ \E f, g \in FNames : f # g /\ \E v \in Factors[f], w \in Factors[g] : row = [Default EXCEPT ![f] = v, ![g] = w]
-Init == IF Mode = "directives" THEN row \in DirectiveInstances(MaxDeviations) ELSE RowInit
+Init == IF Mode = "directives" THEN row \in DirectiveInstances(MaxDeviations)
+        ELSE IF Mode = "metadata" THEN row \in MetadataTextCases ELSE RowInit
 Next == UNCHANGED row
 EmitCase == PrintT(<<"CASE", ToJson(row)>>)
 =============================================================================
